@@ -56,7 +56,7 @@ type VB struct {
 	mu       sync.Mutex
 	Items    []Item
 	High     uint64
-	Failover []Failover // newest first
+	Failover []Failover        // newest first
 	Obs      map[int]*ObsState // replica index -> scripted observe state (default: Failover[0].UUID, High)
 	CollHigh map[uint32]uint64 // scripted per-collection high seqno (collection-aware GET_ALL_VB_SEQNOS)
 	streams  []*dcpStream
@@ -115,41 +115,41 @@ type Action struct {
 }
 
 type Cluster struct {
-	mu       sync.Mutex
-	Bucket   string
-	UUID     string
-	NumVB    int
-	VBs      []*VB
-	VBMap    [][]int // vb -> [active node, replica1 node, ...]; -1 unassigned
-	NumRepl  int
-	Rev      int
-	RevEpoch int
-	Version  string
-	BucketType string
-	Storage  string
-	Docs     map[string]*Doc
-	Loopback bool // document writes are appended to the vbucket history and streamed back
+	mu                 sync.Mutex
+	Bucket             string
+	UUID               string
+	NumVB              int
+	VBs                []*VB
+	VBMap              [][]int // vb -> [active node, replica1 node, ...]; -1 unassigned
+	NumRepl            int
+	Rev                int
+	RevEpoch           int
+	Version            string
+	BucketType         string
+	Storage            string
+	Docs               map[string]*Doc
+	Loopback           bool          // document writes are appended to the vbucket history and streamed back
 	LoopbackReplyDelay time.Duration // the write's DCP event is pushed first, its reply follows after this delay
-	Collections map[string]uint32
-	Snappy   bool
-	Fragment bool // fragment TCP writes randomly
-	StrictUUID bool
-	NoSelectBucket bool
+	Collections        map[string]uint32
+	Snappy             bool
+	Fragment           bool // fragment TCP writes randomly
+	StrictUUID         bool
+	NoSelectBucket     bool
 
 	Hook     func(*Req) *Action
 	HTTPHook func(path string) (status int, body []byte, handled bool, hang bool)
 
 	Log *evlog.Log
 
-	nodes   []*node
-	casCtr  uint64
-	connCtr int32
-	cfgSubs map[chan []byte]struct{}
-	closed  bool
-	conns   map[*conn]struct{}
-	rng     *rand.Rand
+	nodes       []*node
+	casCtr      uint64
+	connCtr     int32
+	cfgSubs     map[chan []byte]struct{}
+	closed      bool
+	conns       map[*conn]struct{}
+	rng         *rand.Rand
 	DcpControls []string // key=value seen
-	Hellos  []string
+	Hellos      []string
 }
 
 type node struct {
@@ -272,7 +272,7 @@ func (cl *Cluster) configJSON() []byte {
 		"vBucketServerMap": map[string]any{
 			"hashAlgorithm": "CRC", "numReplicas": cl.NumRepl,
 			"serverList": serverList,
-			"vBucketMap":  vbmap,
+			"vBucketMap": vbmap,
 		},
 		"nodes":                  nodesArr,
 		"nodesExt":               nodesExt,
